@@ -347,8 +347,18 @@ func (sw *storageWorld) exec(st *Step) *Violation {
 		}
 		// pad with never-written ids so that the parallel path (>= 11 ids) is taken now and then
 		if st.Keep {
+			var pad []atree.SlabID
 			for i := 0; i < 12; i++ {
-				ids = append(ids, RegID{1, uint64(1000 + i)}.SlabID())
+				pad = append(pad, RegID{1, uint64(1000 + i)}.SlabID())
+			}
+			// the never-written ids go before, after or around the real ones
+			switch st.N % 3 {
+			case 0:
+				ids = append(ids, pad...)
+			case 1:
+				ids = append(pad, ids...)
+			default:
+				ids = append(append(append([]atree.SlabID{}, pad[:5]...), ids...), pad[5:]...)
 			}
 		}
 		views := map[RegID]int{}
